@@ -143,7 +143,7 @@ func scenUI(r *Run, o uiOpts) {
 	t := r.W
 	// some racing towns carry strings that the scrubber really alters (tabs, escapes): code that
 	// treats cleaning as a write then writes to documents shared between goroutines
-	tn := buildTown(r, TownOpts{Hostile: o.hostile || (o.racing && t.Chance(1, 3)), RichLinks: o.rich || (o.racing && t.Chance(1, 3)), Paged: o.paged, Markdown: o.racing})
+	tn := buildTown(r, TownOpts{Hostile: o.hostile || (o.racing && t.Chance(1, 3)), RichLinks: o.rich || (o.racing && t.Chance(1, 3)), Paged: o.paged, Markdown: o.racing, DeadParents: o.racing})
 	w, h := 80, 24
 	if o.sizes || t.Chance(1, 3) {
 		w, h = drawWidth(r, o), 2+t.Draw(39)
@@ -160,7 +160,7 @@ func scenUI(r *Run, o uiOpts) {
 		r.S.PanicProp = "C07"
 	}
 	// hook behaviour
-	hookMode := t.Weighted(6, 2, 1, 1)
+	hookMode := t.Weighted(6, 2, 1, 1, 2)
 	u.ExecOutcome = func(rec simexec.Record) simexec.Outcome {
 		switch hookMode {
 		case 1:
@@ -169,6 +169,11 @@ func scenUI(r *Run, o uiOpts) {
 			return simexec.Outcome{NotFound: true}
 		case 3:
 			return simexec.Outcome{Delay: 3 * time.Second}
+		case 4:
+			// a player or viewer that stays open for the rest of the session: the interface goes
+			// on working meanwhile
+			r.S.Probe("hook_outlives_session")
+			return simexec.Outcome{Hang: true}
 		}
 		return simexec.Outcome{Delay: time.Duration(len(rec.Args)) * 10 * time.Millisecond}
 	}
